@@ -54,7 +54,7 @@ def run(ctx):
         if not ok or st not in fsm.states:
             continue
         here = [a for a in ir.assigns if a.state == (fsm.id, st)]
-        vals = {a.lhs.canon(): a for a in here}
+        vals = {q.base(a.lhs.canon()): a for a in here}
         def const_of(name):
             a = vals.get(name)
             return a.rhs.val if a is not None and a.rhs.op == 'const' and not a.guard else None
@@ -65,7 +65,7 @@ def run(ctx):
                fsm.state_loc[st], 'header type must be TRANSACTION (4)')
         ctx.ob('C45.valid', 'TransactionPacketGenerator.send_%s.valid' % kind,
                const_of('self.header_source.valid') == 1 and 'self.header_source.header' in vals and
-               vals['self.header_source.header'].rhs.canon() == 'response', fsm.state_loc[st],
+               q.base(vals['self.header_source.header'].rhs.canon()) == 'response', fsm.state_loc[st],
                'sending state must present the response header as valid')
         fields = [('response.device_address', 'self.address'), ('response.endpoint_number', 'self.interface.endpoint_number')]
         if kind == 'ack':
